@@ -925,7 +925,7 @@ func runDasCheck(t *testing.T, prop string) {
 	rep := vx.NewReport(prop, "model_checking")
 	rep.Rule = "explicit-state BFS over event histories of the real das.DASer (events: head announcement h+1/h+2/dup/stale, " +
 		"per-call sampler answer ok/fail/outside-window/cancel-looking/ctx-error, background-store tick, back-off expiry, stop, crash, start, " +
-		"header-store growth while stopped); a state is non-trivial and distinct when its canonical fingerprint (coordinator cursor/head/failed/inRetry/" +
+		"header-store growth and tail advance while stopped); a state is non-trivial and distinct when its canonical fingerprint (coordinator cursor/head/failed/inRetry/" +
 		"workers, pending calls, sampled set, persisted checkpoint, phase) was not seen before"
 	rep.Assumptions = []string{
 		"sampler calls started with an already cancelled context fail at once with ctx.Err()",
@@ -1008,7 +1008,7 @@ func runDasCheck(t *testing.T, prop string) {
 		rep.Set(fmt.Sprintf("run_%02d", i), map[string]any{
 			"cfg": cfg.String(), "states": st.States, "transitions": st.Transitions, "depth_completed": st.DepthDone,
 			"depth_bound": r.depth, "frontier_emptied": st.Complete, "capped": st.Capped, "states_per_depth": st.PerDepth,
-			"events_applied": st.EventsApplied, "bounded_liveness_drains": st.States,
+			"events_applied": st.EventsApplied, "bounded_liveness_drains": map[bool]int{true: st.States, false: 0}[prop == "C13"],
 		})
 		for _, h := range st.SampleHist {
 			if len(h) >= 4 {
